@@ -34,19 +34,55 @@ pub fn tip_history(out: &mut crate::Out, tag: &str, seed: u64, net: NetID) {
         _ => vec![42_700, 950_000, 1_950_000, 2_950_000],   // (the specification's DOSC inflator 10^6 + h is exact up to height 3*10^6 only)
     };
     for b in boundaries {
-        let j = d.w.jump(sealed, b - 2);
+        let j = d.w.jump(sealed, b - 3);
         d.cur = d.w.next(j);
         d.block_start = d.cur;
         d.block_batches.clear();
-        // blocks b-1, b, b+1
-        for k in 0..3 {
+        // blocks b-2 (proposer action), b-1 (a tip is paid, no proposer action: tips are pending at the boundary; the block is also
+        // restarted), b (proposer action), b+1
+        for k in 0..4 {
             step(&mut d);
-            if k != 1 {
+            if k != 2 {
                 swapdrive::pool_step(&mut d);
             } else if let Some((t, w)) = swapdrive::deposit_tx(&mut d, PoolKey::new(Denom::Mel, Denom::Sym), 3, 3, 0, &[]) {
                 d.apply(&[t], 0, json!({"why": format!("deposit at a boundary block: {}", w)}));
             }
-            sealed = d.seal_next(Some(k != 2)).unwrap();
+            if k == 1 {
+                let sp = d.spendable();
+                if let Some(c) = sp.iter().find(|(_, x)| x.coin_data.denom == Denom::Mel && x.coin_data.value.0 > 50_000_000).cloned() {
+                    if let Some(t) = d.build(TxKind::Normal, &[c], vec![], 1, vec![], 7777) {
+                        d.apply(&[t], 0, json!({"why": "payment with a tip in the last block before the boundary"}));
+                    }
+                }
+            }
+            sealed = d.seal_next(Some(k == 0 || k == 2)).unwrap();
+            if k == 1 {
+                // a node restarted at this very block goes on like the original: same next state, same block b
+                let twin = d.w.restart(sealed);
+                let key = format!("C08|{}|boundary|{}", tag, b);
+                let nt = d.w.next(twin);
+                let dest = d.wal.address(CovKind::True);
+                let act = Some(ProposerAction { fee_multiplier_delta: -100, reward_dest: dest });
+                let sa = d.w.seal(d.cur, act, json!({"why": "empty boundary block on the original", "agreeKey": key, "prop": "C08"}));
+                let sb = d.w.seal(nt, act, json!({"why": "empty boundary block on the restarted twin", "agreeKey": key, "prop": "C08"}));
+                // ... and each accepts the other's block
+                if let (Some(sa), Some(sb)) = (sa, sb) {
+                    let (ba, bb) = (d.w.sealed(sa).to_block(), d.w.sealed(sb).to_block());
+                    let hon = Some(ba.header);
+                    let x = |m: &str, h: &Option<Header>| json!({"mut": m, "honestOk": h.is_some(), "honest": h.map(|h| crate::lj::hx(&h.hash())).unwrap_or_default(),
+                                                                  "honestHeader": h.map(|h| crate::lj::header_j(&h)).unwrap_or(json!({}))});
+                    d.w.block(twin, &ba, 0, x("none (the original's boundary block on the restarted twin)", &hon));
+                    // the same block claiming a neighbouring fee multiplier (what the rule of the other side of the boundary may give)
+                    for dm in [-2i64, -1, 1, 2] {
+                        let mut fh = ba.header;
+                        fh.fee_multiplier = (fh.fee_multiplier as i128 + dm as i128).max(0) as u128;
+                        let forged = Block { header: fh, transactions: ba.transactions.clone(), proposer_action: ba.proposer_action };
+                        d.w.block(twin, &forged, 0, x(&format!("header.fee_multiplier {:+} at the boundary block", dm), &hon));
+                        d.w.block(sealed, &forged, 0, x(&format!("header.fee_multiplier {:+} at the boundary block (on the original)", dm), &hon));
+                    }
+                    d.w.block(sealed, &bb, 0, x("none (the twin's boundary block on the original)", &Some(bb.header)));
+                }
+            }
         }
     }
 }
